@@ -481,6 +481,8 @@ expandfunc(struct macro *m)
 	tok = (struct array){0};
 	arg = xreallocarray(NULL, m->nparam, sizeof(*arg));
 	t = rawnext();
+	while (m->nparam == 0 && t->kind == TNEWLINE)
+		t = rawnext();
 	for (i = 0; i < m->nparam; ++i) {
 		p = &m->param[i];
 		if (p->flags & PARAMSTR) {
